@@ -171,3 +171,17 @@ func verifModelSliceStable(x any, less func(i, j int) bool) {
 func verifModelFprintf(w io.Writer, format string, a ...any) (int, error) {
 	return w.Write([]byte(fmt.Sprintf(format, a...)))
 }
+
+// sort.SearchStrings: binary search (meaningful on a sorted slice only; on any other slice it returns whatever the probes lead to)
+func verifModelSearchStrings(a []string, x string) int {
+	i, j := 0, len(a)
+	for i < j {
+		h := int(uint(i+j) >> 1)
+		if a[h] < x {
+			i = h + 1
+		} else {
+			j = h
+		}
+	}
+	return i
+}
